@@ -63,6 +63,8 @@ type gworld struct {
 	target   uint64
 	pmsgs    map[uint64]string // proposal id → escrow words of its messages
 	pkind    map[uint64]int
+	// set when a PASSED proposal's paying message left the gov account short of the open deposits (the later halt is its consequence)
+	shortCause string
 }
 
 func (g *gworld) ctx() sdk.Context { return g.s.Ctx }
@@ -537,16 +539,25 @@ func (g *gworld) opBlock(dt int64) {
 		}
 	}
 	escOp := strings.TrimSpace("gescb " + strings.Join(evs, " "))
+	bal0, total0 := g.escrowReal()
 	g.now = at
 	res := hx.Try(func() error { return finalizeAt(g.s, g.now) })
 	if res != "ok" {
 		g.dead = true
 		g.out.Emit(op, obs)
-		if escOK && strings.Contains(res, "insufficient funds") {
-			g.out.Emit(escOp, "halt")
+		site := strings.TrimPrefix(panicSite(res), "panic:")
+		if strings.Contains(res, "insufficient funds") {
+			if escOK {
+				g.out.Emit(escOp, "halt")
+			}
+			if g.shortCause != "" {
+				site = "refund or burn of deposits fails for lack of funds, gov escrow spent by a proposal message (short since " + g.shortCause + ")"
+			} else {
+				site = fmt.Sprintf("refund or burn of deposits fails for lack of funds although no passed proposal message had left the account short before this block (it held %s for %s of deposits)", bal0, total0)
+			}
 		}
 		g.out.Violate(fmt.Sprintf("C07 block processing halts: FinalizeBlock %s with %d proposal(s) due for tally and %d deposit period(s) expiring (gov end-blocker): %s",
-			strings.SplitN(res, ":", 2)[0], len(due), nInactive, strings.TrimPrefix(panicSite(res), "panic:")))
+			strings.SplitN(res, ":", 2)[0], len(due), nInactive, site))
 		g.out.Count("gblock:halt")
 		return
 	}
@@ -561,18 +572,42 @@ func (g *gworld) opBlock(dt int64) {
 	}
 	// the deposit escrow, on the real state: the gov module account must cover the open deposits, or a later refund / burn fails
 	// and the end-blocker halts
-	if bal, total := g.escrowReal(); bal.LT(total) {
-		var kinds []string
-		for _, d := range due {
-			if dr, ok := dry[d.pid]; ok && dr.passes && g.pkind[d.pid] >= 4 {
-				kinds = append(kinds, fmt.Sprintf("proposal %d kind %d: %s", d.pid, g.pkind[d.pid], g.pmsgs[d.pid]))
+	bal, total := g.escrowReal()
+	var spenders, statuses []string
+	anyPassed := false
+	for _, d := range due {
+		p, err := k.Proposals.Get(g.ctx(), d.pid)
+		if err != nil {
+			continue
+		}
+		statuses = append(statuses, fmt.Sprintf("%d:%s", d.pid, strings.TrimPrefix(p.Status.String(), "PROPOSAL_STATUS_")))
+		if p.Status == v1.StatusPassed {
+			anyPassed = true
+			if kd := g.pkind[d.pid]; kd == 4 || kd == 5 || kd == 7 {
+				spenders = append(spenders, fmt.Sprintf("proposal %d kind %d: %s", d.pid, kd, g.pmsgs[d.pid]))
 			}
 		}
-		g.out.Violate(fmt.Sprintf("C07 block processing will halt: gov escrow spent by a proposal message: after the block the gov module account holds %s but the open deposits sum to %s (%s): the refund or burn of an open proposal fails and gov.EndBlocker returns the error",
-			bal, total, strings.Join(kinds, "; ")))
+	}
+	switch {
+	case bal.LT(total) && len(spenders) > 0:
+		g.shortCause = strings.Join(spenders, "; ")
+		g.out.Violate(fmt.Sprintf("C07 block processing will halt: gov escrow spent by a proposal message: after the block the gov module account holds %s but the open deposits sum to %s (PASSED %s): the refund or burn of an open proposal fails and gov.EndBlocker returns the error",
+			bal, total, g.shortCause))
 		g.out.Count("gblock:escrow-short")
-	} else {
+	case bal.LT(total) && g.shortCause == "":
+		g.out.Violate(fmt.Sprintf("C07 block processing will halt: the gov module account holds %s but the open deposits sum to %s, and no PASSED proposal carried a paying message (due: %s): a deposit record without coins, or coins that left with a FAILED proposal",
+			bal, total, strings.Join(statuses, " ")))
+		g.out.Count("gblock:escrow-short-unexplained")
+	case bal.LT(total):
+		g.out.Count("gblock:escrow-short")
+	default:
 		g.out.Count("gblock:escrow-covered")
+	}
+	// nothing a FAILED (or rejected) proposal did may stay: in a block in which no proposal passed, the account's surplus over the
+	// open deposits cannot shrink
+	if !anyPassed && bal.Sub(total).LT(bal0.Sub(total0)) {
+		g.out.Violate(fmt.Sprintf("C07 gov end-blocker: coins left the gov module account in a block in which no proposal passed (surplus over the open deposits %s → %s; due: %s): messages of a FAILED proposal were not discarded",
+			bal0.Sub(total0), bal.Sub(total), strings.Join(statuses, " ")))
 	}
 	// the end-blocker must have acted on every due proposal exactly as the tally said
 	for _, d := range due {
